@@ -12,7 +12,9 @@ use rust_rule_engine::types::ActionType;
 const NAMES_Q: &[&str] = &["Check Age", "VIP upgrade", "R1", "discount-rule", "Règle été", "a_b", "Order > 100", "x"];
 const NAMES_B: &[&str] = &["CheckAge", "R2", "apply_discount", "_tmp", "Rule9"];
 const GROUPS: &[&str] = &["validation", "g1", "pricing tier", "no-loop", "salience 7"];
-const TAME: &[&str] = &["", "a", "gold", "active", "x y", "Gold", "über", "abc def"];
+const TAME: &[&str] = &["", "a", "gold", "active", "x y", "Gold", "über", "abc def",
+    // blanks inside a string literal are content: runs of blanks, leading / trailing blanks, tabs, non-ASCII spaces
+    "a  b", " lead", "trail ", "tab\there", "x\u{a0}y", "全角\u{3000}空白", "   "];
 /// strings with GRL metacharacters (string literals must be opaque to the parser)
 const META: &[&str] = &["a;b", "x && y", "p || q", "}", "{", "a } b {", "now then go", "// not a comment", "(", ")", "f(x) > 1", "a = b", "a, b",
                         "rule X {", "when", "salience 9", "!", "a == b", "1 + 2", "100%", "it's", "no-loop"];
